@@ -269,6 +269,9 @@ class Parser:
                 self.take_comments()
                 self.expect("}")
                 break
+        if idx and (ms or len(idx) > 1):
+            # `{ [key in K]: V }` is a mapped type: it has exactly that one member (TS7061)
+            raise TsSyntaxError("a mapped type may not declare other members")
         return {"k": "obj", "ms": ms, "idx": idx}
 
     def next_kind(self, kind):
